@@ -419,11 +419,17 @@ impl StreamSocket {
     // Buffer and re-order received segments by `seq` as the network may deliver
     // them out of order.
     fn buffer(&mut self, seq: u64, segment: SequencedSegment) -> Result<(), Protocol> {
-        use mpsc::error::TrySendError::*;
-
         let exists = self.buf.insert(seq, segment);
 
         assert!(exists.is_none(), "duplicate segment {seq}");
+
+        self.drain()
+    }
+
+    // Move contiguous segments from the reorder buffer to the application's
+    // receive queue, as far as the queue has room.
+    fn drain(&mut self) -> Result<(), Protocol> {
+        use mpsc::error::TrySendError::*;
 
         while self.buf.contains_key(&(self.recv_seq + 1)) {
             self.recv_seq += 1;
@@ -568,6 +574,15 @@ impl Tcp {
                     .any(|seg| matches!(seg, SequencedSegment::Data(_)))
             })
             .unwrap_or(false)
+    }
+
+    /// The application took a segment off the receive queue: segments that were
+    /// parked in the reorder buffer because the queue was full can move up now.
+    pub(crate) fn redrain(&mut self, pair: SocketPair) {
+        if let Some(sock) = self.sockets.get_mut(&pair) {
+            // The receiver is the caller, so the queue cannot be closed.
+            let _ = sock.drain();
+        }
     }
 
     /// Remove the stream socket without decrementing the half-close refcount.
